@@ -5,3 +5,5 @@ import "github.com/PapaCharlie/go-restli/v2/restlicodec"
 var requiredVW = restlicodec.NewRequiredFields().Add("v", "w")
 
 var pairRequired = restlicodec.NewRequiredFields().Add("a", "b")
+
+var requiredElements = restlicodec.NewRequiredFields().Add("elements")
